@@ -15,12 +15,12 @@ ALSO = {
     "C01": "The contracts of the other stages the composition relies on are decided by the rules of C03 (combinators), "
            "C05 (optimizer) and C07 (reader), which are re-run under this property (rules C01.C03-*, C01.C05-*, C01.C07-*). Stack's snapshot protocol (C11) and the per-back-end rule nesting, entry dispatch, built-ins and skip (C02.RULE/ENTRY/BUILTINS/SKIP) are re-run as well.",
     "C02": "ENTRY also decides that the start-rule dispatch templates call the function of the rule they match and that "
-           "the VM starts from the rule it is given; SKIP accepts an atomicity guard hoisted into an early return. The VM keeps no mutable state of its own (VMPURE); every path of Vm::parse reaches pest::state.",
+           "the VM starts from the rule it is given; SKIP accepts an atomicity guard hoisted into an early return. The VM keeps no mutable state of its own (VMPURE); every path of Vm::parse reaches pest::state. The restorer clauses of C05 (RESTORE-LEAVES / -WRAP / -SHAPE) are re-run: the back-ends spell repetition differently and agree on the stack after an absorbed failure only through the shared optimizer's RestoreOnErr.",
     "C03": "Also decided: who may write the token queue (besides rule/sequence every write is guarded by lookahead == "
-           "None), multi-step matchers work on a scratch position, the memchr-free search scans exhaustively. A failed skip_until leaves the cursor at the end on every false-returning path; a step of s.len() bytes is licensed only by a test that the input holds a slice of that byte length; a one-byte step only by an ASCII test on input data; Stack's snapshot protocol (C11's clauses) is re-run. No matcher narrows an input character with `as u8`. POP removes the top whether or not it matches; a range-indexed slice of the stack is taken under a test ordering its bounds.",
+           "None), multi-step matchers work on a scratch position, the memchr-free search scans exhaustively. A failed skip_until leaves the cursor at the end on every false-returning path; a step of s.len() bytes is licensed only by a test that the input holds a slice of that byte length; a one-byte step only by an ASCII test on input data; Stack's snapshot protocol (C11's clauses) is re-run. No matcher narrows an input character with `as u8`. POP removes the top whether or not it matches; a range-indexed slice of the stack is taken under a test ordering its bounds. On the path where the ordering test finds a PEEK slice reversed the primitive answers Ok (the empty slice matches). An offset found by searching `..[pos..]` is added to the cursor, an index running over `pos..len` is assigned (FRAME: frame read off the source and the other uses of the local).",
     "C04": "Also decided: cached pair count protocol, agreement of the two line counters on what ends a line, one leaf "
            "predicate for sibling renderers, len() formulas vs step width, the serialized span of a sibling list is its "
-           "window's span (pretty-print), and - re-run from C03 - the production of the token stream (RULE, REWIND, QUEUEW, SNAP). A counting len() counts over exactly the window start..end.",
+           "window's span (pretty-print), and - re-run from C03 - the production of the token stream (RULE, REWIND, QUEUEW, SNAP). A counting len() counts over exactly the window start..end. A loop or search of FlatPairs that moves one cursor of the window is bounded by the other cursor (SCANBOUND).",
     "C05": "Also decided: rule-type guards enable rewrites only where no implicit whitespace is skipped, an accumulator "
            "threaded by value is handed on on every result path, a rewrite never ignores an operand of the shape it matches. A variant the conversion maps to a native operator (RepOnce under grammar-extras) is not desugared into a sequence. Every arm of the restorer hands back the operator it matched.",
     "C06": "Also decided: top-level nullability questions start from an empty trace, only keyword tests may answer before "
@@ -28,7 +28,7 @@ ALSO = {
            "(the validator's isolation argument depends on it). The left-recursion descent through a rule reference is suppressed by the current trace only, never by a memo that outlives the walk. The optimizer clauses of C05 and the operator translations of C02 are re-run (what the validator proved must hold for the rules that are executed); a validation pass looks at every rule; known finding: implicit trivia calls inside a `!` rule called from WHITESPACE/COMMENT.",
     "C07": "Also decided: every stored literal passes the escape decoder; the meta-grammar's lexical rules (number, integer, "
            "string, character, identifier, tag) are deterministic and DFA-equivalent over all scalar values to the "
-           "documented token syntax, on grammar.pest and on the PEG decompiled from the checked-in grammar.rs. An explicit error return of the reader never sits under a comparison of counts other than `== 0`.",
+           "documented token syntax, on grammar.pest and on the PEG decompiled from the checked-in grammar.rs. An explicit error return of the reader never sits under a comparison of counts other than `== 0`. A decoded literal is stored as decoded: no case mapping, replacement or trimming between the escape decoder and the AST.",
     "C08": "Also decided: the error constructor reports the position it is given (location and line_col are projections "
            "of the same Position, never rewritten afterwards); the vector an attempt is pushed to is decided path by path. The optimizer pass that replaces rule references by their literals is enabled only inside @ rules, where rules are not reportable.",
     "C09": "Also decided: rendering (Display for Error and what it reaches in pest::error) never slices a string by a "
@@ -37,9 +37,9 @@ ALSO = {
            "optimizer recursions never evict. Grammar numbers are followed into helper parameters; the front-end entry points read their own text parameter; the leading-`|` clause of C07 and the miette label arithmetic of C10 are re-run.",
     "C10": "Also decided (comparison-shaped clauses): the line iterator of a span stops only strictly past the span's end, "
            "the gutter width of a rendered error reads both line numbers of a span location, and the marker's start "
-           "column is rewritten only under a strict start > end. The diagnostic-label arithmetic of the miette adapter never subtracts the columns of a span unguarded; the error constructors never whitespace-trim the line text; merge_spans computes each bound from both arguments. find_line_start searches back from the position itself.",
+           "column is rewritten only under a strict start > end. The diagnostic-label arithmetic of the miette adapter never subtracts the columns of a span unguarded; the error constructors never whitespace-trim the line text; merge_spans computes each bound from both arguments. find_line_start searches back from the position itself. Every (line, column) pair put into a LineColLocation is the result of Position::line_col adjusted at most by constants, first pair from the span's start and second from its end (LOCSOURCE, value provenance); every line text an error stores has had its line breaks rewritten on every path (STOREDLINE).",
     "C11": "AGREE also decides which end of the popped segment the merge in clear_snapshot may cut: pop appends, so with "
-           "a parent snapshot present a suffix-only cut keeps the wrong elements. The argument of truncate / split_off on the popped vector in clear_snapshot is computed from the vector's length.",
+           "a parent snapshot present a suffix-only cut keeps the wrong elements. The argument of truncate / split_off on the popped vector in clear_snapshot is computed from the vector's length. The bookkeeping is usize throughout: no narrowing `as` cast in an operation of Stack, snapshot records declared over usize (WIDTH).",
     "C12": "Also decided: the setter stores into the process-wide limit on every path with the sentinel the tracker reads "
            "as unlimited; the limit keeps its integer width from setter to comparison; the global is read only when a "
            "tracker is built. In every counting combinator the limit check precedes every write to the parser state, so a refused call hands back the caller's state. No public ParserState operation reaches an explicit panic site (empty-stack expect of POP / PEEK) without first leaving when the tracker says the limit was reached.",
@@ -52,7 +52,7 @@ ALSO = {
     "C15": "Also decided: every value stored in max_position is an offset read from a Position (inter-procedural "
            "provenance, never arithmetic); code that runs only with error detail on contains no explicit panic site. String slicing by byte offsets counts as a panic site there.",
     "C16": "Also decided: the front-end never consults the raw lookup tables (which hold unadvertised names); generator "
-           "template and emitted function carry the same property name; no advertised name is shadowed by a hard-wired arm.",
+           "template and emitted function carry the same property name; no advertised name is shadowed by a hard-wired arm. by_name consults all three tables also in the build without default features; no optimizer pass reasons from a fragment of a name's spelling (OPAQUE).",
     "C17": "Also decided: the done flag protocol, every entry path offers the rule to the listener, the shared state is "
            "reached only through the lock, and the bundled CLI keeps the previous receiver alive until run() has joined "
            "the previous parser thread. The CLI adds no breakpoint after it has started a session on the same path. Each CLI session reports through its own channel; the breakpoint set changes only element by element; the parser thread's sends are judged against run()'s join (known finding: blocking sends on the bounded channel).",
